@@ -70,12 +70,14 @@ SendReq ==   \* a request record (all items are requests issued by one operation
          /\ Imp("C04", LET o == OpOfTag(its[1].tag) IN
                        /\ Len(its) = Len(ops[o].specs)
                        /\ \A i \in 1..Len(its) : its[i].tag = ops[o].specs[i].tag /\ ((its[i].id = "") <=> ops[o].specs[i].note))
+         \* replies that arrived for an id before a request with that id was sent answer nothing
+         /\ got' = [x \in DOMAIN got \ {its[i].id : i \in withId} |-> got[x]]
          /\ Ev.ok => /\ idof' = [x \in DOMAIN idof \cup {its[i].id : i \in withId} |->
                                  IF x \in DOMAIN idof THEN idof[x]
                                  ELSE LET i == CHOOSE j \in withId : its[j].id = x IN [op |-> OpOfTag(its[i].tag), tag |-> its[i].tag]]
                      /\ live' = live \cup {its[i].id : i \in withId}
          /\ ~Ev.ok => UNCHANGED <<idof, live>>
-  /\ UNCHANGED <<ops, got, idres, stopped, pend, causes, sendBad, oncancel, onstop, cbrun, closeOpen, closeDone, rdDone>>
+  /\ UNCHANGED <<ops, idres, stopped, pend, causes, sendBad, oncancel, onstop, cbrun, closeOpen, closeDone, rdDone>>
 
 SendCbReply ==  \* the reply to a server call
   /\ IsEvent("Send")
